@@ -65,6 +65,11 @@ def _drive(solver, op, out):
             except StopIteration:
                 out.exhausted = True
                 break
+    elif kind == "after":
+        # op = ("after", pre, final): a complete earlier search (pre) on the same solver object, then the observed one
+        _drive(solver, tuple(op[1]), Outcome())
+        _drive(solver, tuple(op[2]), out)
+        return
     elif kind == "min":
         r = solver.minimize(op[1])
         out.value = None if r is None else nx.vec(r)
@@ -97,18 +102,22 @@ def run(case, config, op, order=None, detail=False, observers=(), schedule=None,
     s.observers = list(observers)
     s.schedule = schedule
     points = shr_box_size(case)
-    restarts = 1
-    if op[0] in ("min", "max"):
-        d = case["shr"][case["idx"][op[1]]]
-        restarts = d[1] - d[0] + 3
-    s.choice_bound = points * restarts + 2
-    s.choice_budget = s.choice_bound
-    if op[0] in ("min", "max"):
-        s.solution_budget = restarts  # each improving solution removes at least one value of the objective's domain
-        s.solution_budget_why = "an optimisation can improve at most %d times on an objective with %d values" % (restarts - 2, restarts - 2)
+
+    def bounds(o):
+        """(choice bound, solution budget, why) of one search"""
+        if o[0] in ("min", "max"):
+            d = case["shr"][case["idx"][o[1]]]
+            r = d[1] - d[0] + 3
+            # each improving solution removes at least one value of the objective's domain
+            return points * r + 2, r, "an optimisation can improve at most %d times on an objective with %d values" % (r - 2, r - 2)
+        return points + 2, points + 1, "the search space has %d points" % points
+
+    if op[0] == "after":
+        (c1, s1, _), (c2, s2, w2) = bounds(tuple(op[1])), bounds(tuple(op[2]))
+        s.choice_bound, s.solution_budget, s.solution_budget_why = c1 + c2, s1 + s2, w2 + " (after an earlier complete search on the same solver)"
     else:
-        s.solution_budget = points + 1
-        s.solution_budget_why = "the search space has %d points" % points
+        s.choice_bound, s.solution_budget, s.solution_budget_why = bounds(op)
+    s.choice_budget = s.choice_bound
     out.session = s
 
     def go():
